@@ -229,11 +229,6 @@ func TestC20Witness(t *testing.T) {
 			{"ALTER TABLE t AUTO_INCREMENT = 2", "ok", nil},
 			{"INSERT INTO t (v) VALUES (3)", "ok", nil},
 		}},
-		{idExhaustedDup, "at the end of TINYINT a non-unique AUTO_INCREMENT column gets 127 a second time instead of an error", []step{
-			{"CREATE TABLE t (id TINYINT NOT NULL AUTO_INCREMENT, v INT, KEY (id))", "ok", nil},
-			{"INSERT INTO t VALUES (127, 1)", "ok", nil},
-			{"INSERT INTO t (v) VALUES (2)", "error", nil},
-		}},
 		{idOkFirstRow, "OkResult.InsertID is the explicit id of the first row instead of the first generated id", []step{
 			{"CREATE TABLE t (id INT NOT NULL AUTO_INCREMENT PRIMARY KEY, v INT)", "ok", nil},
 			{"INSERT INTO t VALUES (5, 1), (NULL, 2), (NULL, 3)", "insertid:6", nil},
@@ -286,6 +281,9 @@ func TestC20Witness(t *testing.T) {
 		f.Close()
 		if bad == "" {
 			st.Class("witness-no-longer-reproduces:" + c.id)
+			if kf.Listed(c.id) {
+				t.Logf("STALE: finding %s is listed as known but its witness (%s) satisfies the property now", c.id, c.what)
+			}
 			continue
 		}
 		st.NonTrivial(map[string]string{"finding": c.id, "observed": bad}, c.id, c.what)
